@@ -288,11 +288,12 @@ func c17NonTrivial(c c17Value) bool {
 }
 
 func TestC17(t *testing.T) {
+	defer harness.Uncaught(t)
 	// (i) packets in the image of rtcp.Unmarshal over generated accepted inputs
 	harness.RapidCheck(t, harness.Scale(5000, 40000), 17, func(rt *rapid.T) {
 		kind, b := gen.HostileBytes(rt, false)
 		c := c17Bytes{B: b}
-		_, err := rtcp.Unmarshal(append([]byte(nil), b...))
+		_, err := safeUnmarshal(b)
 		harness.Eval(subC17Decoded.Name, 1)
 		if len(b) > c17MaxInput {
 			harness.Class("decoded-skipped-larger-than-6KiB", 1)
